@@ -544,6 +544,37 @@ class DISPENSO_CACHELINE_ALIGNED ThreadPool {
   alignas(kCacheLineSize) std::atomic<ssize_t> outstandingTaskSets_{0};
 #endif // DISPENSO_DEBUG
 
+#if defined(DISPENSO_VERIF)
+ public:
+  // Observation-only hooks for the verification harness in /verif (compiled only with
+  // -DDISPENSO_VERIF): where is pending work right now, and what does the accounting say.
+  size_t verifCentralQueueSize() const {
+    return work_.size_approx();
+  }
+  bool verifCentralQueueHint() const {
+    return centralQueueNonEmpty_.load(std::memory_order_relaxed);
+  }
+  size_t verifNonEmptyRings() const {
+    size_t c = 0;
+    for (size_t i = 0; i < rings_.size(); ++i) {
+      c += rings_[i].empty() ? 0 : 1;
+    }
+    return c;
+  }
+  size_t verifNonEmptyStealRings() const {
+    size_t c = 0;
+    for (size_t i = 0; i < stealRings_.size(); ++i) {
+      c += stealRings_[i].empty() ? 0 : 1;
+    }
+    return c;
+  }
+  ssize_t verifWorkRemaining() const {
+    return workRemaining_.load(std::memory_order_relaxed);
+  }
+
+ private:
+#endif // DISPENSO_VERIF
+
   friend class ConcurrentTaskSet;
   friend class TaskSet;
   friend class TaskSetBase;
